@@ -13,7 +13,7 @@
 (***************************************************************************)
 EXTENDS Naturals, Sequences, FiniteSets, TLC, Json
 
-CONSTANTS Kinds,         \* "state" | "povm" | "gate" | "mprocess"
+CONSTANTS Kinds,         \* "state" | "povm" | "gate" | "mprocess" | "lindbladian"
           Reads,         \* names of read operations
           Emit
 
